@@ -329,9 +329,17 @@ Definition handle_dot (cf : cfg) (st : pst) (it : iter) : str :=
   then S_ "(?!\.[.]?" ++ c_path_eop cf ++ S_ ")\." else re_escape_ch cDOT.
 
 (* consume_path_sep (1525-1548) *)
+(* Unix rules: a run of `/`, an escaped `\/` counting as a separator too *)
 Fixpoint skip_slashes (r : str) (i : Z) : iter :=
   match r with
-  | c :: r' => if N.eqb c cSL then skip_slashes r' (i + 1) else {| idx := i; rest := r |}
+  | c :: r' =>
+      if N.eqb c cSL then skip_slashes r' (i + 1)
+      else if N.eqb c cBS then
+        match r' with
+        | c2 :: r'' => if N.eqb c2 cSL then skip_slashes r'' (i + 2) else {| idx := i; rest := r |}
+        | [] => {| idx := i; rest := r |}
+        end
+      else {| idx := i; rest := r |}
   | [] => {| idx := i; rest := [] |}
   end.
 (* To rewind two characters we need the character before; thread explicit history instead. *)
@@ -429,7 +437,7 @@ Definition handle_star (cf : cfg) (st : pst) (it : iter) (cur : list item) : pst
         let cur2 := if c_gcapture cf && negb captured
                     then match cur' with _ :: cur'' => last :: T value2 :: cur'' | [] => cur end
                     else cur in
-        (set_start_dir st2, it2, cur2)
+        (set_start_dir st2, consume_path_sep cf it2, cur2)
     | [] => (set_start_dir st2, it2, cur)   (* IndexError in Python; unreachable: root starts with [''] *)
     end
   else (st2, it2, T value2 :: cur).
